@@ -312,14 +312,12 @@ def check_cell(ctx, W, comps, bare, eff, origin, lines, recs, bcomp=None):
     rec = {"text": text, "key": key, "replay": replay, "valid": valid, "real": None, "spec": None, "rejected": err is not None}
     # the whole translated __getitem__ (ellipsis, batch components, batch-only branch) on this very cell
     bl = None if W.dense_psd else b_line(W, comps, bare)
-    if bl is not None and valid and exp_mean.numel() == 0 and any(c["k"] in ("tensor", "list") for c in comps):
-        # torch does not bounds-check index tensors when the result is empty (no element is ever read): validity of such an
-        # index is not observable, the cell is judged by the specification oracle only
-        ctx.count("empty_with_index_tensor_not_sent")
-        bl = None
+    # torch does not bounds-check index tensors when the result is empty (no element is ever read): for such a cell "invalid"
+    # on the Lean side is not contradicted by torch accepting it
+    lax_bounds = bool(valid and exp_mean.numel() == 0 and any(c["k"] in ("tensor", "list") for c in comps))
     if bl is not None:
         brec = {"text": text, "key": key, "b": True, "valid": valid, "rejected": err is not None, "real": None,
-                "spec": "none" if not valid else spec_cov_str(W, exp_mean, eff), "batch_adv": batch_adv}
+                "spec": "none" if not valid else spec_cov_str(W, exp_mean, eff), "batch_adv": batch_adv, "lax": lax_bounds}
         if valid and err is None:
             try:
                 g = Rcov.reshape(1, 1) if (exp_mean.dim() == 0 and Rcov.numel() == 1) else Rcov
@@ -550,9 +548,12 @@ def rank_batch_shapes(n, t):
 
 def batch_comp_choices(b, rng, adv):
     """index components for a batch dimension of size b"""
-    out = [comp_int(v) for v in range(-b, b)] + [FULL, FULL, comp_slice(1, None, None), comp_slice(None, None, 2),
-                                                 comp_slice(None, b + 2, None), comp_slice(-1, None, None), comp_slice(None, -1, None),
-                                                 comp_slice(-b - 1, b, 3), comp_slice(b, None, None)]
+    out = [comp_int(v) for v in range(-b, b)] + [FULL, FULL, comp_slice(None, None, 2), comp_slice(None, b + 2, None),
+                                                 comp_slice(-1, None, None), comp_slice(-b - 1, b, 3)]
+    if b > 1:
+        out += [comp_slice(1, None, None), comp_slice(None, -1, None)]
+    if rng.random() < 0.1:
+        out += [comp_slice(b, None, None), comp_slice(1, None, None), comp_slice(None, -1, None)]   # (possibly) empty batch selections
     if adv:
         out += [comp_tensor([rng.randrange(-b, b) for _ in range(rng.choice([1, 2, 3]))], rng.choice(["tensor", "list"]))]
     return out
@@ -563,7 +564,7 @@ def run_rank_cells(ctx, rng, quick, lines, recs, deadline=None):
     batch components) on batch shapes of rank 0..3 incl. size-1 dimensions and sizes that coincide with n / t / each
     other; every cell goes through the specification oracle and - as a `B` line - through the generated dispatch."""
     sizes = [(1, 1), (2, 2), (3, 2), (2, 3), (1, 3), (4, 1), (3, 3)] if quick else [(n, t) for n in range(1, 5) for t in range(1, 5)]
-    per_world = 5 if quick else 24
+    per_world = 4 if quick else 24
     for (n, t) in sizes:
         ev = [c for c in event_cells(n, t, rng, True) if c[2] not in ("exotic",)]
         for inter in (True, False):
@@ -715,6 +716,9 @@ def run_cells(ctx, want_driver=True, deep=False):
         except Exception:
             ctx.broke("driver", "bad reply", rep[:200])
             break
+        if rec.get("lax") and spec == "none":
+            ctx.count("empty_result_out_of_range_tensor_not_observable")
+            continue
         if rec["spec"] is not None and spec != rec["spec"]:
             spec_mism += 1
             if spec_mism <= 3:
@@ -1133,6 +1137,93 @@ def _batch_shapes_with_task(t, max_dims):
     return out
 
 
+def _plan_case(case):
+    """remember a constructor call so that the REGENERATED permutation / stacking / block dimensions can be executed by torch
+    on the same arguments (run_plan_cases)"""
+    import warnings
+    lst = _state.setdefault("plan_cases", [])
+    if sum(1 for c in lst if c["kind"] == case["kind"]) >= 80:
+        return
+    try:
+        with warnings.catch_warnings():
+            warnings.simplefilter("ignore")
+            case["res_mean"] = case["res"].mean.clone()
+            case["res_cov"] = case["res"].covariance_matrix.clone()
+        del case["res"]
+        lst.append(case)
+    except Exception:
+        pass
+
+
+def run_plan_cases(ctx, creply):
+    """The regenerated plans of the constructors executed by torch: `mean.permute(*perm)` / `BlockInterleaved(K, block_dim)`,
+    `stack` / `unsqueeze` / `cat` / `BlockDiag`, `expand(shape)` + task_dim — on the arguments of the real calls, compared
+    (exactly) with what the real constructors built."""
+    import torch
+    import warnings
+    from linear_operator import to_linear_operator
+    from linear_operator.operators import BlockDiagLinearOperator, BlockInterleavedLinearOperator
+    cases = _state.pop("plan_cases", [])
+    if not cases:
+        return
+    ops = {"interleavedBlocks": BlockInterleavedLinearOperator, "diagBlocks": BlockDiagLinearOperator}
+    info = dict(part.split("=", 1) for part in creply.split(";"))
+    lines = []
+    for c in cases:
+        if c["kind"] == "batch":
+            lines.append(f"P {c['nb']} {c['task_dim']}")
+        elif c["kind"] == "rep":
+            lines.append(f"R {c['nt']} {len(c['bshape'])} " + " ".join(map(str, c["bshape"])))
+            lines.append(f"P {len(c['bshape']) + 1} {info['repeated'].split('/')[0]}")
+    try:
+        replies = iter(C.run_driver("C11", lines)) if lines else iter(())
+    except Exception as e:
+        ctx.broke("driver", "C11 driver", str(e))
+        return
+
+    def plan(rep):
+        body = rep.split("=", 1)[1]
+        if body == "none":
+            return None
+        perm, bd = body.split("/")
+        return [int(x) for x in perm.split(",")], int(bd)
+    bad = 0
+    for c in cases:
+        ctx.case(f"generated plan executed: {c['desc']}")
+        ctx.count("generated_plan_executions")
+        try:
+            with warnings.catch_warnings():
+                warnings.simplefilter("ignore")
+                if c["kind"] == "batch":
+                    pl = plan(next(replies))
+                    op = ops[info["fromBatchMvn"].split("/")[0]]
+                    mean2 = c["m"].permute(*pl[0])
+                    cov2 = op(to_linear_operator(c["K"]), block_dim=pl[1]).to_dense()
+                elif c["kind"] == "indep":
+                    sd, ud, cd, bd = (int(x) for x in info["indep"].split(","))
+                    op = ops[info["fromIndependentMvns"].split("/")[0]]
+                    mean2 = torch.stack(c["ms"], sd)
+                    cov2 = op(to_linear_operator(torch.cat([k.unsqueeze(ud) for k in c["Ks"]], dim=cd)), block_dim=bd).to_dense()
+                else:
+                    r1 = dict(part.split("=", 1) for part in next(replies).split(";"))
+                    pl = plan(next(replies))
+                    shape = [int(x) for x in r1["shape"].split(",")]
+                    op = ops[info["fromRepeatedMvn"].split("/")[0]]
+                    mean2 = c["m"].expand(*shape, c["m"].shape[-1]).permute(*pl[0])
+                    cov2 = op(to_linear_operator(c["K"].expand(*shape, *c["K"].shape[-2:])), block_dim=pl[1]).to_dense()
+            ok = (tuple(mean2.shape) == tuple(c["res_mean"].shape) and bool((mean2 == c["res_mean"]).all())
+                  and tuple(cov2.shape) == tuple(c["res_cov"].shape) and bool(((cov2 - c["res_cov"]).abs() <= 1e-12).all()))
+            why = "" if ok else f"mean shape {tuple(mean2.shape)} vs {tuple(c['res_mean'].shape)}, cov shape {tuple(cov2.shape)}"
+        except Exception as e:
+            ok, why = False, f"{type(e).__name__}: {str(e)[:120]}"
+        if not ok:
+            bad += 1
+            if bad <= 3:
+                ctx.broke("correspondence", f"model-mismatch:constructor-plan:{c['kind']}",
+                          f"{c['desc']}: the regenerated plan executed by torch does not rebuild the real result ({why})")
+    ctx.count("generated_plan_mismatches", bad)
+
+
 def run_constructors(ctx, gen):
     import torch
     import warnings
@@ -1223,6 +1314,7 @@ def run_constructors(ctx, gen):
                         ctx.fail("numeric:from_batch_mvn:raises", f"{desc}: {type(e).__name__}: {str(e)[:150]}", rp)
                         continue
                     joint_check("from_batch_mvn", res, m.movedim(pos, -2), K.movedim(pos, -3), desc, rp)
+                    _plan_case({"kind": "batch", "nb": len(bshape), "task_dim": task_dim, "m": m, "K": K, "res": res, "desc": desc})
                     if form == "lazy":
                         observed["fromBatchMvn"] = (type(res.lazy_covariance_matrix).__name__, res._interleaved)
         # from_independent_mvns: every storage form of the task covariances, all equal or mixed; batch shapes incl. broadcasting
@@ -1250,6 +1342,8 @@ def run_constructors(ctx, gen):
                     full = torch.broadcast_shapes(*bshapes)
                     joint_check("from_independent_mvns", res, torch.stack([mm.expand(*full, n) for mm in ms], -2),
                                 torch.stack([kk.expand(*full, n, n) for kk, _ in parts], -3), desc, rp)
+                    _plan_case({"kind": "indep", "ms": [mm.expand(*full, n) for mm in ms],
+                                "Ks": [kk.expand(*full, n, n) for kk, _ in parts], "res": res, "desc": desc})
                     if fmix == ("lazy",) * t:
                         observed["fromIndependentMvns"] = (type(res.lazy_covariance_matrix).__name__, res._interleaved)
         # from_repeated_mvn: num_tasks incl. 1, storage forms, batch shapes
@@ -1271,6 +1365,7 @@ def run_constructors(ctx, gen):
                 continue
             joint_check("from_repeated_mvn", res, m.unsqueeze(-2).expand(*bshape, nt, n), K.unsqueeze(-3).expand(*bshape, nt, n, n),
                         desc, rp)
+            _plan_case({"kind": "rep", "nt": nt, "bshape": list(bshape), "m": m, "K": K, "res": res, "desc": desc})
             if form == "lazy":
                 observed["fromRepeatedMvn"] = (type(res.lazy_covariance_matrix).__name__, res._interleaved)
     _state["ctor_observed"] = observed
@@ -1330,7 +1425,7 @@ def run_data_independent_tags(ctx, want_driver=True):
                         data = [int(p[i, 0]) - int(p[0, 0]) for i in range(n)]
                         task = [int(p[0, a]) for a in range(t)]
                         # real grids are not observable; spec grids: data_i + task_a = flat(i,a) with task_0 = flat(0,0)=0
-                        want.append((f"data={','.join(map(str, data))};task={','.join(map(str, task))}", n, t, inter))
+                        want.append((f"data={','.join(map(str, data))};task={','.join(map(str, task))}", n, t, inter, got, W))
     if not want_driver:
         return
     lines.append("C")
@@ -1339,10 +1434,26 @@ def run_data_independent_tags(ctx, want_driver=True):
     except Exception as e:
         ctx.broke("driver", "C11 driver", str(e))
         return
-    for (w, n, t, inter), rep in zip(want, replies):
+    di_axes = dict(part.split("=", 1) for part in replies[-1].split(";")).get("di", "1,0").split(",")
+    for (w, n, t, inter, got, W), rep in zip(want, replies):
         if rep != w:
             ctx.broke("correspondence", "model-mismatch:data_independent",
                       f"n={n} t={t} inter={inter}: generated grids {rep}, flat positions of the blocks {w}")
+            continue
+        # the generated grids + the generated unsqueeze axes, executed on the tags: entry (i, x, y) of the result
+        try:
+            gd = dict(part.split("=", 1) for part in rep.split(";"))
+            data = torch.tensor([int(v) for v in gd["data"].split(",")]).view(-1, 1, 1)
+            task = torch.tensor([int(v) for v in gd["task"].split(",")])
+            ax = lambda which: task.view(1, 1, -1) if which == "1" else task.view(1, -1, 1)   # 1: follows y (last), 0: follows x
+            pred = W.covB[0][data + ax(di_axes[0]), data + ax(di_axes[1])]
+            ctx.count("data_independent_generated_entries_checked")
+            if tuple(pred.shape) != tuple(got.shape) or not bool((pred == got).all()):
+                ctx.broke("correspondence", "model-mismatch:data_independent-axes",
+                          f"n={n} t={t} inter={inter}: covariance[data_i + task_(row axis), data_i + task_(col axis)] with the "
+                          f"generated grids / axes {di_axes} is not the block the implementation returned")
+        except Exception as e:
+            ctx.broke("correspondence", "model-mismatch:data_independent-axes", f"n={n} t={t}: {type(e).__name__}: {e}")
     # constructors: the translated (block operator, layout flag) against the objects the real constructors built
     obs = _state.get("ctor_observed", {})
     names = {"interleavedBlocks": "BlockInterleavedLinearOperator", "diagBlocks": "BlockDiagLinearOperator"}
@@ -1353,6 +1464,7 @@ def run_data_independent_tags(ctx, want_driver=True):
             if (names.get(op), fl == "1") != obs[k]:
                 ctx.broke("correspondence", f"model-mismatch:{k}", f"translated {v}, the real constructor built {obs[k]}")
     ctx.notes["constructors_observed"] = {k: list(v) for k, v in obs.items()}
+    run_plan_cases(ctx, replies[-1])
 
 
 def run_views(ctx, want_driver=True):
@@ -1423,6 +1535,24 @@ def run_views(ctx, want_driver=True):
                     if len(captured) != 1 or tuple(captured[0].shape) != (*batch, N):
                         bad("log_prob-arg", f"log_prob handed {[tuple(c.shape) for c in captured]} to the flat density")
                         continue
+                    # rsample: capture the base samples that reach MultivariateNormal.rsample
+                    bcap = []
+                    orig_rs = MultivariateNormal.rsample
+
+                    def cap_rs(self, sample_shape=torch.Size(), base_samples=None, _c=bcap, _o=orig_rs):
+                        if base_samples is not None:
+                            _c.append(base_samples.detach().clone())
+                        return _o(self, sample_shape=sample_shape, base_samples=base_samples)
+                    MultivariateNormal.rsample = cap_rs
+                    try:
+                        with warnings.catch_warnings():
+                            warnings.simplefilter("ignore")
+                            d.rsample(base_samples=v.clone())
+                    finally:
+                        MultivariateNormal.rsample = orig_rs
+                    base_flat = bcap[0] if (len(bcap) == 1 and tuple(bcap[0].shape) == (*batch, N)) else None
+                    if base_flat is None:
+                        bad("rsample-base-arg", f"rsample handed {[tuple(c.shape) for c in bcap]} to the flat sampler")
                     y = captured[0]
                     if not bool((y[..., pos] == w).all()):
                         bad("log_prob-arg", f"log_prob evaluates the flat density at {(y - 1000).tolist()} (ids i*t+a of the value "
@@ -1438,7 +1568,8 @@ def run_views(ctx, want_driver=True):
                         with warnings.catch_warnings():
                             warnings.simplefilter("ignore")
                             r2 = d2.rsample(base_samples=torch.zeros(n, t, dtype=torch.float64))
-                        obs.append({"logprob": fl(y - 1000.0), "ctor": fl(loc), "mean": fl(d2.mean) if ok2 else None,
+                        obs.append({"basearg": fl(base_flat) if base_flat is not None else None,
+                                    "logprob": fl(y - 1000.0), "ctor": fl(loc), "mean": fl(d2.mean) if ok2 else None,
                                     "variance": fl(d2.variance - 1.0) if ok2 else None, "rsample": fl(r2) if ok2 else None,
                                     "desc": desc})
     if not want_driver:
@@ -1450,7 +1581,7 @@ def run_views(ctx, want_driver=True):
         return
     for o, rep in zip(obs, replies):
         got = dict(part.split("=", 1) for part in rep.split(";"))
-        for k in ("logprob", "ctor", "mean", "variance", "rsample"):
+        for k in ("logprob", "ctor", "mean", "variance", "rsample", "basearg"):
             if o[k] is not None and got.get(k) != o[k]:
                 ctx.broke("correspondence", f"model-mismatch:view:{k}", f"{o['desc']}: generated chain gives {got.get(k)}, "
                           f"the implementation {o[k]}")
